@@ -76,6 +76,9 @@ STATEMENT_STATUS: Dict[str, str] = {
         "proved (round 2) about definitions REGENERATED from the Python source (Gen/Xref.lean)",
     "C02_row_layout": "proved (round 6) about REGENERATED row addressing (entlen, offset = entlen*index, data/field slices, "
                       "/Index walk: range test, index += on hit/miss, start value) of get_pos/get_objids/load",
+    "C02_written_rep": "proved (round 6): Rep DERIVED for every output of the Lean file writer (any (sub-)revisions, interleaved hybrid "
+                       "parts, gaps/lengths, object-stream members); per file only the writer twin (q.written) and WFile.ok are evaluated",
+    "C02_written_newest_wins": "proved (round 6): newest definition wins end to end on the writer's output",
     "C02_table_fuel / C02_fallback_fuel": "proved (round 2): loops terminate within one iteration per byte",
     "C02_fallback": "proved (round 2): body scan offsets = true offsets; hypothesis ItemsOK checked per damaged file by itemsOKb",
     "C02_cue_header": "proved (round 2): PDFOBJ_CUE matcher accepts every rendered `n g obj` header",
@@ -783,6 +786,40 @@ def lean_setup_lines(data: bytes, layout: Dict[str, Any], revs: List[CW.Rev]) ->
     return lines
 
 
+def written_plan_lines(layout: Dict[str, Any], revs: List[CW.Rev]) -> List[str]:
+    """The file as a plan for the Lean structural writer (Spec/XrefHist.lean): trailers of the
+    (sub-)revisions oldest first, the body objects in file order as (gap, length) — never absolute
+    positions — tagged with the (sub-)revision that lists them, and the object-stream members."""
+    lines: List[str] = []
+    sub_of: Dict[Tuple[int, int], int] = {}
+    members: List[str] = []
+    j = 0
+    for sec in layout["sections"]:
+        k = sec["rev"]
+        rev = revs[k]
+        direct = {o["n"] for o in layout["objects"] if o["rev"] == k}
+        for part in reversed(sec["parts"]):
+            lines.append(f"wtr {rev.root} {opt(rev.info)}")
+            if part["kind"] == "table":
+                for e in part["entries"]:
+                    if e[3] == "n":
+                        sub_of[(k, e[0])] = j
+            else:
+                for r in part["rows"]:
+                    if r[1] == 1 or (r[1] == 2 and r[0] in direct):
+                        sub_of[(k, r[0])] = j
+                    elif r[1] == 2:
+                        members.append(f"wobj m {j} {r[0]} p{lean_id(canon_pdf(rev.defs[r[0]]))} {r[2]} {r[3]}")
+            j += 1
+    cur = 0
+    for o in sorted(layout["objects"], key=lambda o: o["pos"]):
+        sub = sub_of.get((o["rev"], o["n"]), 999999)
+        lines.append(f"wobj d {sub} {o['n']} {lean_val(o)} {o['pos'] - cur} {o['end'] - o['pos']} {o['gen']}")
+        cur = o["end"]
+    return lines + members
+
+
+
 def to_lean_res(canon: str, containers: Dict[str, str]) -> str:
     """Implementation / Python-spec answer in the driver's output vocabulary."""
     if canon.startswith("E:"):
@@ -818,7 +855,7 @@ def tie_case(ctx: C.Ctx, case: Dict[str, Any], data: bytes, layout: Dict[str, An
         return
     containers = {canon_pdf(o["val"]): 1 for o in layout["objects"] if o["kind"] == "objstm"}
     qs = csv(queries)
-    lines = lean_setup_lines(data, layout, revs)
+    lines = lean_setup_lines(data, layout, revs) + written_plan_lines(layout, revs)
     nsetup = len(lines)
     bound = layout["maxn"] + 3
     qlines = ["q.open 4096", "q.sections", "q.rootinfo", f"q.queries 0 {qs}", f"q.queries 1 {qs}",
@@ -850,6 +887,8 @@ def tie_case(ctx: C.Ctx, case: Dict[str, Any], data: bytes, layout: Dict[str, An
     xp = layout["startxref"]
     qtail = f"q.tail {case.get('tail', 'normal')} {eol_name} {len(str(xp))} {xp}"
     qlines.append(qtail)
+    qwritten = f"q.written 0 {bound}"
+    qlines.append(qwritten)
     out = ctx.driver.ask(lines + qlines)
     inp = {"kind": "history", "case": case, "queries": queries}
     if any(o != "ok" for o in out[:nsetup]):
@@ -865,6 +904,12 @@ def tie_case(ctx: C.Ctx, case: Dict[str, Any], data: bytes, layout: Dict[str, An
     if tfits != "true" or not data.endswith(bytes.fromhex(thex if thex != "-" else "")) \
             or data.rfind(b"startxref") != len(data) - len(thex) // 2:
         ctx.disagree("writer-twin q.tail", inp, C.hx(data[-60:]), r[qtail][:200])
+    # the Lean FILE writer (C02_written_rep / C02_written_newest_wins): side conditions hold, and its store,
+    # entry lists and history are those of this file
+    special = any(p.get("index_overshoot") or p.get("self_stm") for p in case["plans"])
+    ctx.branch("twin:q.written:" + r[qwritten].replace(" ", ",") + (":index-overshoot/self-stm" if special else ""))
+    if r[qwritten] != "true true true true" and not special:
+        ctx.disagree("writer-twin q.written", inp, "true true true true", r[qwritten])
     try:
         with Watchdog(30.0):
             _tie_compare(ctx, inp, data, layout, queries, exp, bufs, r, qs, bound, tparts, containers)
